@@ -152,7 +152,10 @@ let run_case (line : string) : string =
   let outs = Stdlib.List.map (fun s ->
       match split_ws s with
       | "adv" :: ids :: fop ->
+        let (ids, rem) = match Stdlib.String.split_on_char '/' ids with [a; b] -> (a, b) | _ -> (ids, "-") in
         let ms = Stdlib.List.map (fun x -> nn (int_of_string x)) (split ',' ids) in
+        let rm = Stdlib.List.map (fun x -> nn (int_of_string x)) (split ',' rem) in
+        if rm <> [] then st := step !st (BrokerCancel rm);
         st := step !st (BrokerAdvance ms);
         if not fail_mode then "A " ^ observe !st
         else begin
